@@ -180,7 +180,7 @@ def run_rules(ctx, chk):
         # S2 over two iterations: on EVERY acceptance -- also one reached on a retry -- the record copy that is cached lies
         # between the two generation loads that are compared: first load, copy, acquire fence, second load. A copy kept
         # from an earlier iteration and validated against generations loaded after it proves nothing (seed W1).
-        r2 = ReaderModel(fb, chk, 'C02.S2', unroll=2 if chk.tier == 'thorough' else 1)
+        r2 = ReaderModel(fb, chk, 'C02.S2', unroll=2)
         n_br = 0
         if r2.ok:
             for p, evs in zip(r2.paths, r2.evs):
@@ -202,6 +202,15 @@ def run_rules(ctx, chk):
                     g1, g2 = pair
                     fenced = all(any(e.kind == 'fence' and e.order in ACQ_OK and x.n < e.n < g2.n for e in evs) for x in reads)
                     ok_b = all(g1.n < x.n < g2.n for x in reads) and fenced
+                    # the opening load orders the copy after it: an acquire load, or an acquire fence between it and the copy.
+                    # (On a retry the opening value is the closing load of the pass before: relaxing *that* load leaves the next
+                    # copy free to be satisfied before it.)
+                    first_read = min(x.n for x in reads)
+                    opened = g1.order in ACQ_OK or any(e.kind == 'fence' and e.order in ACQ_OK and g1.n < e.n < first_read for e in evs)
+                    chk.ob('C02.S2', 'snapshot:opening-load-orders-the-copy', opened, p.where[2],
+                           'the generation load that opens the accepted pass (%s, ordering %s) %s' % (g1.site, g1.order,
+                           'is an acquire load / is followed by an acquire fence before the copy' if opened else
+                           'is neither an acquire load nor followed by an acquire fence before the record copy at %s' % sorted({x.site for x in reads})))
                     detail = ('generation load at %s, record copy at %s, generation load at %s (effect order %s)' % (
                         g1.site, sorted({x.site for x in reads}), g2.site, [g1.n] + sorted(x.n for x in reads) + [g2.n])) + \
                         ('' if ok_b else ' -- the cached copy was not taken between the two compared loads (with an acquire fence '
